@@ -57,10 +57,16 @@ CHECKS = {
         'note': 'Trusted: shim, the simulator\'s catalogue (zone identity = ZoneInfo object, kind = getType()). Nothing is torn: the saved form is 5 bytes written whole, so the restart adds configuration diversity rather than new nondeterminism (DESIGN §5.C16 caveat). Crashes inside plain queries are left to C08/C09.',
         'design': '§5.C16',
     },
+    'C20': {
+        'engine': 'detcompile',
+        'technique': 'deterministic simulation of the compiler\'s environment: tzcompiler.py re-run under seeded perturbations (hash seed, jumping clock, shuffled directory listings, pid, random, TZ, locale, umask, cwd) and byte comparison of all outputs',
+        'text': 'Decides clause 1 only ("compiling the same source twice produces identical files"): the real tzcompiler.py is run in fresh interpreters over a TZ source reconstructed from the zonedbx tables, for scope x language x action-set x year-range configurations, 6 (quick) / 48 (thorough) seed-drawn environments each; every emitted file must equal the unperturbed control byte for byte (reason lists inside one comment compared as multisets). A difference is reported with the perturbation minimised to the dimensions that matter. Clauses 2-6 are relations between artifacts of one execution: not decided.',
+        'note': 'Trusted: the perturbation shim (sitecustomize.py) really intercepts time/datetime/os.listdir/os.scandir/os.getpid/random; the reconstructed source stands in for the original TZ release.',
+        'design': '§5.C20',
+    },
 }
 
 PENDING = {
-    'C20': 'claimed (clause 1) in DESIGN.md; check under construction (detcompile)',
 }
 
 
